@@ -988,7 +988,7 @@ def pure_streams(ctx, rng, n):
 def run(ctx):
     rng = ctx.rng
     batch = _Batch(ctx)
-    n_base = ctx.pick(160, 2000)
+    n_base = ctx.pick(160, 1000)
     n_pert = ctx.pick(7, 10)
     pure_streams(ctx, rng, ctx.pick(400, 4000))
     for i in range(n_base):
